@@ -1489,6 +1489,128 @@ func childAtPaths(repo string) (string, error) {
 		"def childAtDispatch : List (String × List (String × String)) :=\n  [" + strings.Join(disp, ",\n   ") + "]\n", nil
 }
 
+// the workflow (workflow.go, generator.go): per function, the sequence of effectful steps in source
+// order. A step is a call with its arguments; message strings and calls of Debug are left out (wording
+// is not behaviour); `range X { … }` and `Once.Do(func() { … })` bracket the steps inside them.
+func workflowSteps(repo string) (string, error) {
+	targets := []struct{ file, recv, name string }{
+		{"workflow.go", "standardWorkflow", "Init"}, {"workflow.go", "standardWorkflow", "Run"}, {"workflow.go", "standardWorkflow", "Persist"},
+		{"workflow.go", "onceWorkflow", "Init"}, {"workflow.go", "onceWorkflow", "Run"}, {"workflow.go", "onceWorkflow", "Persist"},
+		{"generator.go", "Generator", "AST"}, {"generator.go", "Generator", "Render"}}
+	callText := func(c *ast.CallExpr) string {
+		var args []string
+		for _, a := range c.Args {
+			if bl, ok := a.(*ast.BasicLit); ok && bl.Kind == token.STRING {
+				continue // messages
+			}
+			t := exprText(a)
+			if c.Ellipsis.IsValid() && a == c.Args[len(c.Args)-1] {
+				t += "..."
+			}
+			args = append(args, t)
+		}
+		return exprText(c.Fun) + "(" + strings.Join(args, ", ") + ")"
+	}
+	var out []string
+	for _, t := range targets {
+		fd := findFunc(parse(filepath.Join(repo, t.file)), t.recv, t.name)
+		if fd == nil {
+			return "", fmt.Errorf("%s: %s.%s not found", t.file, t.recv, t.name)
+		}
+		var steps []string
+		var walk func(list []ast.Stmt) error
+		stepOf := func(e ast.Expr, lhs string) error {
+			c, ok := e.(*ast.CallExpr)
+			if !ok {
+				if lhs != "" {
+					steps = append(steps, lhs+exprText(e))
+				}
+				return nil
+			}
+			if strings.HasSuffix(exprText(c.Fun), ".Debug") || strings.HasSuffix(exprText(c.Fun), ".Debugf") {
+				return nil
+			}
+			// x.Do(func() { ... }): the steps inside, bracketed
+			if sel, ok := c.Fun.(*ast.SelectorExpr); ok && sel.Sel.Name == "Do" && len(c.Args) == 1 {
+				if fl, ok := c.Args[0].(*ast.FuncLit); ok {
+					steps = append(steps, "once "+exprText(sel.X)+" {")
+					if err := walk(fl.Body.List); err != nil {
+						return err
+					}
+					steps = append(steps, "}")
+					return nil
+				}
+			}
+			steps = append(steps, lhs+callText(c))
+			return nil
+		}
+		walk = func(list []ast.Stmt) error {
+			for _, st := range list {
+				switch x := st.(type) {
+				case *ast.ExprStmt:
+					if err := stepOf(x.X, ""); err != nil {
+						return err
+					}
+				case *ast.AssignStmt:
+					var lhs []string
+					for _, l := range x.Lhs {
+						lhs = append(lhs, exprText(l))
+					}
+					if len(x.Rhs) != 1 {
+						return fmt.Errorf("%s.%s: multi-value assignment", t.recv, t.name)
+					}
+					if err := stepOf(x.Rhs[0], strings.Join(lhs, ", ")+" = "); err != nil {
+						return err
+					}
+				case *ast.RangeStmt:
+					steps = append(steps, "range "+exprText(x.X)+" {")
+					if err := walk(x.Body.List); err != nil {
+						return err
+					}
+					steps = append(steps, "}")
+				case *ast.IfStmt:
+					if x.Init != nil {
+						return fmt.Errorf("%s.%s: if with init", t.recv, t.name)
+					}
+					steps = append(steps, "if "+exprText(x.Cond)+" {")
+					if err := walk(x.Body.List); err != nil {
+						return err
+					}
+					steps = append(steps, "}")
+					if x.Else != nil {
+						return fmt.Errorf("%s.%s: else branch", t.recv, t.name)
+					}
+				case *ast.ReturnStmt:
+					if len(x.Results) == 0 {
+						steps = append(steps, "return")
+					} else if len(x.Results) == 1 {
+						if c, ok := x.Results[0].(*ast.CallExpr); ok {
+							steps = append(steps, "return "+callText(c))
+						} else {
+							steps = append(steps, "return "+exprText(x.Results[0]))
+						}
+					} else {
+						return fmt.Errorf("%s.%s: return with %d results", t.recv, t.name, len(x.Results))
+					}
+				default:
+					return fmt.Errorf("%s.%s: statement of kind %T", t.recv, t.name, st)
+				}
+			}
+			return nil
+		}
+		if err := walk(fd.Body.List); err != nil {
+			return "", err
+		}
+		var q []string
+		for _, st := range steps {
+			q = append(q, strconv.Quote(st))
+		}
+		out = append(out, fmt.Sprintf("(%q, [%s])", t.recv+"."+t.name, strings.Join(q, ",\n     ")))
+	}
+	return "/-- workflow.go, generator.go: the effectful steps of each function, in source order (messages and Debug calls left out) -/\n" +
+		"def workflowSteps : List (String × List String) :=\n  [" + strings.Join(out, ",\n   ") + "]\n", nil
+}
+
 // the hydrate functions of ast.go: in source order, the registration of the entity itself (`g.add`),
 // every loop over a descriptor list with the hydrate function it feeds, and the other graph calls
 func hydratePhases(repo string) (string, error) {
@@ -1645,7 +1767,7 @@ func genCode(repo string) (map[string]string, error) {
 	tables := []struct {
 		name string
 		gen  func(string) (string, error)
-	}{{"nameHelpers", nameHelpers}, {"acceptOrders", acceptOrders}, {"typePredicates", typePredicates}, {"hydratePhases", hydratePhases}, {"childAtPaths", childAtPaths}}
+	}{{"nameHelpers", nameHelpers}, {"acceptOrders", acceptOrders}, {"typePredicates", typePredicates}, {"hydratePhases", hydratePhases}, {"childAtPaths", childAtPaths}, {"workflowSteps", workflowSteps}}
 	for _, g := range tables {
 		t, err := g.gen(repo)
 		if err != nil {
